@@ -582,3 +582,61 @@ func sortStringsInPlace(s []string) {
 		}
 	}
 }
+
+// checkAppendAlias (APPEND-ALIAS): a function that returns append(p, …) where
+// p is its own slice parameter or receiver hands back a slice that may share
+// p's backing array: a later append through either one overwrites the other's
+// elements. A "clone with one more element" helper must append to a slice it
+// made itself.
+func checkAppendAlias(c *core.Ctx, l *core.Ledger, rule string, rels []string) {
+	n := 0
+	for _, f := range c.AllFuncs(rels...) {
+		if c.IsTestFile(f.Pos()) || core.IsGenerated2(c, f) {
+			continue
+		}
+		k := 0
+		core.Instrs(f, func(ins ssa.Instruction) {
+			call, ok := ins.(*ssa.Call)
+			if !ok {
+				return
+			}
+			bi, isB := call.Call.Value.(*ssa.Builtin)
+			if !isB || bi.Name() != "append" || len(call.Call.Args) == 0 {
+				return
+			}
+			p, isP := call.Call.Args[0].(*ssa.Parameter)
+			if !isP {
+				return
+			}
+			n++
+			// does the result reach a return (directly or through further appends / phis)?
+			returned := false
+			seen := map[ssa.Value]bool{}
+			var walk func(v ssa.Value, d int)
+			walk = func(v ssa.Value, d int) {
+				if d > 6 || seen[v] || v.Referrers() == nil {
+					return
+				}
+				seen[v] = true
+				for _, r := range *v.Referrers() {
+					switch x := r.(type) {
+					case *ssa.Return:
+						returned = true
+					case *ssa.Phi:
+						walk(x, d+1)
+					case *ssa.Call:
+						if b2, isB2 := x.Call.Value.(*ssa.Builtin); isB2 && b2.Name() == "append" && x.Call.Args[0] == v {
+							walk(x, d+1)
+						}
+					}
+				}
+			}
+			walk(call, 0)
+			if returned {
+				k++
+				l.Bad(rule, fmt.Sprintf("%s:append-to-param#%d", core.SSAName(f), k), c.Rel(call.Pos()), "append("+p.Name()+", …) is returned: the result may share the backing array of the caller's "+p.Name()+", so two results built from the same "+p.Name()+" overwrite each other's last element")
+			}
+		})
+	}
+	l.Add(core.Obligation{Rule: rule, Key: "appends-examined", Status: core.Discharged, Detail: fmt.Sprintf("%d appends to a slice parameter examined in %v: none is returned", n, rels)})
+}
